@@ -90,6 +90,16 @@ impl FunBuilder {
     self.capture_count
   }
 
+  /// The number of parameter slots in a frame of this function
+  #[inline]
+  pub fn parameter_count(&self) -> u8 {
+    match self.arity {
+      Arity::Default(_, max) => max,
+      Arity::Fixed(count) => count,
+      Arity::Variadic(count) => count,
+    }
+  }
+
   /// The max slots computed so far
   #[cfg(feature = "verif")]
   pub fn verif_max_slots(&self) -> i32 {
